@@ -74,8 +74,8 @@ pub const N_TY_SKEL: usize = 7;
 pub const TY_SKELS: [&str; N_TY_SKEL] = [
     "&m 'L [V]",
     "Adt<V, 'L, C>",
-    "(V, *m V2)",
-    "for<'a> fn(&'a m V, 'L-arg) ",
+    "(V, *mut V2)",
+    "for<'a> unsafe extern C fn(&'a mut V) -> &'L bool",
     "dyn Tr<V> + 'L",
     "<V as Tr>::A<'L>",
     "[V; C]",
@@ -97,23 +97,25 @@ pub fn ty_skel_uses(s: usize) -> (bool, bool, bool) {
 pub fn mk_ty(s: usize, v: &Vars) -> Ty<VI> {
     let id = sym::u64();
     match s {
-        0 => ty(TyKind::Ref(sym_mutability(), v.lt(0), ty(TyKind::Slice(v.ty(0))))),
+        0 => ty(TyKind::Ref(Mutability::Mut, v.lt(0), ty(TyKind::Slice(v.ty(0))))),
         1 => ty(TyKind::Adt(
             adt_id(id),
             subst(&[ga_ty(v.ty(0)), ga_lt(v.lt(0)), ga_const(v.ct(0))]),
         )),
         2 => {
-            let s = subst(&[ga_ty(v.ty(0)), ga_ty(ty(TyKind::Raw(sym_mutability(), v.ty2(0))))]);
+            // (V, *mut V2)
+            let s = subst(&[ga_ty(v.ty(0)), ga_ty(ty(TyKind::Raw(Mutability::Mut, v.ty2(0))))]);
             ty(TyKind::Tuple(2, s))
         }
         3 => {
             // one binder: 'a = ^0.0; the class variables are one level further out
+            // for<'a> unsafe extern "C" fn(&'a mut V) -> &'L bool
             let a = lt(LifetimeData::BoundVar(BoundVar::new(DebruijnIndex::INNERMOST, 0)));
-            let arg = ty(TyKind::Ref(sym_mutability(), a, v.ty(1)));
-            let ret = ty(TyKind::Ref(sym_mutability(), v.lt(1), ty(TyKind::Scalar(sym_scalar()))));
+            let arg = ty(TyKind::Ref(Mutability::Mut, a, v.ty(1)));
+            let ret = ty(TyKind::Ref(Mutability::Not, v.lt(1), ty(TyKind::Scalar(Scalar::Bool))));
             ty(TyKind::Function(FnPointer {
                 num_binders: 1,
-                sig: FnSig { abi: sym_abi(), safety: sym_safety(), variadic: sym::bool() },
+                sig: FnSig { abi: VAbi::C, safety: Safety::Unsafe, variadic: false },
                 substitution: FnSubst(subst(&[ga_ty(arg), ga_ty(ret)])),
             }))
         }
@@ -167,11 +169,11 @@ pub fn mk_goal(s: usize, v: &Vars) -> Goal<VI> {
             )
         }
         1 => {
-            // all(V = F, not(&m 'L V = F))
+            // all(V = F, not(&mut 'L V = F))
             let f = foreign(id);
             let g1: Goal<VI> =
                 Goal::new(I, GoalData::EqGoal(EqGoal { a: ga_ty(v.ty(0)), b: ga_ty(f) }));
-            let r = ty(TyKind::Ref(sym_mutability(), v.lt(0), v.ty(0)));
+            let r = ty(TyKind::Ref(Mutability::Mut, v.lt(0), v.ty(0)));
             let g2: Goal<VI> = Goal::new(I, GoalData::EqGoal(EqGoal { a: ga_ty(r), b: ga_ty(f) }));
             let g3: Goal<VI> = Goal::new(I, GoalData::Not(g2));
             Goal::new(I, GoalData::All(Goals::from_iter(I, [g1, g3])))
@@ -200,7 +202,7 @@ pub fn mk_clause(v: &Vars) -> ProgramClause<VI> {
         consequence: DomainGoal::WellFormed(WellFormed::Trait(tr)),
         conditions: Goals::from1(I, cond),
         constraints: Constraints::empty(I),
-        priority: if sym::bool() { ClausePriority::High } else { ClausePriority::Low },
+        priority: ClausePriority::Low,
     };
     ProgramClause::new(
         I,
@@ -245,7 +247,6 @@ where
     }
     let back = up.shifted_out_to(I, kk);
     assert!(back == Ok(t), "C25: shifting in and back out changed the term");
-    cover!(true);
 }
 
 /// `shifted_out_to(k)` fails exactly when a variable is bound within the k innermost binders
@@ -262,7 +263,6 @@ where
     if k == 1 {
         assert!(t.shifted_out(I).is_err() == down.is_err());
     }
-    cover!(true);
 }
 
 /// out-and-back (classes whose variables are all free beyond k)
@@ -275,7 +275,6 @@ where
         Ok(d) => assert!(d.shifted_in_from(I, kk) == t, "C25: shifting out and back in changed the term"),
         Err(_) => assert!(false, "C25: shifted_out_to failed although every variable is free beyond k"),
     }
-    cover!(true);
 }
 
 /// A folder with only the default methods.
@@ -296,7 +295,6 @@ where
 {
     let r = t.try_fold_with(&mut Noop, DebruijnIndex::INNERMOST);
     assert!(r == Ok(t), "C25: folding with a folder that changes nothing changed the term");
-    cover!(true);
 }
 
 /// The binder `[Ty, Ty, Lifetime, Const(usize)]` and its identity substitution.
@@ -325,14 +323,13 @@ where
         // variables of outer binders move one level in; the binder's own stay: not comparable
         // with a single shift — the identity law is stated for terms closed under the binder
     }
-    cover!(true);
 }
 
 /// σ = [Foreign a, &m 'static ^0.j, '^0.l, const ^0.c]: arguments with free variables at depth 0.
 fn sigma() -> Substitution<VI> {
     let a = foreign(sym::u64());
     let j = ty(TyKind::BoundVar(BoundVar::new(DebruijnIndex::INNERMOST, sym::usize())));
-    let r = ty(TyKind::Ref(sym_mutability(), lt(LifetimeData::Static), j));
+    let r = ty(TyKind::Ref(Mutability::Mut, lt(LifetimeData::Static), j));
     let l = lt(LifetimeData::BoundVar(BoundVar::new(DebruijnIndex::INNERMOST, sym::usize())));
     let c = ConstData {
         ty: ty(TyKind::Scalar(Scalar::Uint(UintTy::Usize))),
@@ -356,7 +353,6 @@ where
     assert!(lhs == rhs, "C25: substitution does not commute with shifting");
     // Subst::apply is what substitute uses
     assert!(Subst::apply(I, s.as_slice(I), t).shifted_in(I) == lhs);
-    cover!(true);
 }
 
 // ------------------------------------------------------------------------------------------
@@ -399,6 +395,7 @@ pub fn shift_ty(law: u8, s: usize, d_ty: u32, d_lt: u32, d_ct: u32, k: u32) {
         1 => law_shift_out_fails(t, k, min_free(ty_skel_uses(s), &v)),
         _ => law_shift_out_in(t, k),
     }
+    cover!(true);
 }
 pub fn shift_goal(law: u8, s: usize, d_ty: u32, d_lt: u32, d_ct: u32, k: u32) {
     let v = Vars::sym(d_ty, d_lt, d_ct);
@@ -408,6 +405,7 @@ pub fn shift_goal(law: u8, s: usize, d_ty: u32, d_lt: u32, d_ct: u32, k: u32) {
         1 => law_shift_out_fails(g, k, min_free(goal_skel_uses(s), &v)),
         _ => law_shift_out_in(g, k),
     }
+    cover!(true);
 }
 pub fn shift_clause(law: u8, d_ty: u32, k: u32) {
     let v = Vars::sym(d_ty, 0, 0);
@@ -417,26 +415,32 @@ pub fn shift_clause(law: u8, d_ty: u32, k: u32) {
         1 => law_shift_out_fails(c, k, d_ty),
         _ => law_shift_out_in(c, k),
     }
+    cover!(true);
 }
 pub fn noop_ty(s: usize, d_ty: u32, d_lt: u32, d_ct: u32) {
     let v = Vars::sym(d_ty, d_lt, d_ct);
     law_noop(mk_ty(s, &v));
+    cover!(true);
 }
 pub fn noop_goal(s: usize, d: u32) {
     let v = Vars::sym(d, d, d);
     law_noop(mk_goal(s, &v));
+    cover!(true);
 }
 pub fn noop_clause(d: u32) {
     let v = Vars::sym(d, 0, 0);
     law_noop(mk_clause(&v));
+    cover!(true);
 }
 pub fn ident_ty(s: usize) {
     let v = Vars::of_binder(0, 0, 0);
     law_ident(mk_ty(s, &v), true);
+    cover!(true);
 }
 pub fn ident_goal(s: usize) {
     let v = Vars::of_binder(0, 0, 0);
     law_ident(mk_goal(s, &v), true);
+    cover!(true);
 }
 pub fn comm_ty(s: usize, d_ty: u32, d_lt: u32, d_ct: u32) {
     // depth 0 = the binder's own variable (fixed index by kind), depth >= 1 = outer variable
@@ -452,6 +456,7 @@ pub fn comm_ty(s: usize, d_ty: u32, d_lt: u32, d_ct: u32) {
         v.i_ct = sym::usize();
     }
     law_comm(mk_ty(s, &v));
+    cover!(true);
 }
 pub fn comm_goal(s: usize, d: u32) {
     let mut v = Vars::of_binder(d, d, d);
@@ -462,6 +467,7 @@ pub fn comm_goal(s: usize, d: u32) {
         v.i_ct = sym::usize();
     }
     law_comm(mk_goal(s, &v));
+    cover!(true);
 }
 
 include!("c25_classes.rs");
